@@ -4,7 +4,7 @@ EpsAlg (real code on symbolic terms, under "no table difference vanishes", i.e. 
 of the ghost table):
   T   after each term the internal list holds the current anti-diagonal of Wynn's table
       eps_{k+1}^{(n)} = eps_{k-1}^{(n+1)} + 1/(eps_k^{(n+1)} - eps_k^{(n)}) and the returned value is the entry of highest
-      even order                                                  [sequence length bounded: quick <= 6, thorough <= 9]
+      even order                                                  [sequence length bounded: <= 9 in both tiers]
   G   L + a q^n (three terms) -> L exactly (k = 1); k >= 2 rests on Shanks' exactness theorem for Wynn's table (M5)
 Dea -- object invariant J: 0 <= _n <= limexp-1, len(epstab) == limexp+5, _nres >= 0.  For every enumerated limexp, every n
 admitted by J, _nres in 0..3, with the CONTENTS of epstab havoc'd and the element loop of _dea cut from the AST (loop
@@ -43,25 +43,24 @@ ASSUMPTIONS = ['EpsAlg: no difference of the epsilon table is within 1e-60 of ze
 NOT_DECIDED = ['behaviour inside the convergence / irregularity guards beyond totality; rounding']
 BOUNDED = ['dea-concrete (second obligation): EpsAlg and Dea fed integer-typed terms (python ints, numpy integers, integer partial sums) compared with the same terms as floats, 15 cases -- executed, not proved',
            'dea-concrete: Dea on 49 concrete (sequence, limexp) cases incl. sequences that hit the guards on the first terms (floating point; finite values, error floor, agreement with dea3, transients recovered) -- executed, not proved (non-finite sentinels such as inf cannot be represented as reals in the symbolic harness)',
-           'EpsAlg table identity: sequence length <= 6 (quick) / 9 (thorough) -- the state grows with the length',
-           'Dea: limexp enumerated (quick 3,5,7; thorough 3,5,7,9,11,21,61 with all admitted n for limexp <= 11 and '
+           'EpsAlg table identity: sequence length <= 9 (both tiers) -- the state grows with the length',
+           'Dea: limexp enumerated (3,5,7,9,11,21,61 in both tiers with all admitted n for limexp <= 11 and '
            'n in {2,3,limexp-3,limexp-2,limexp-1}, cut positions {0,1,mid,last} for the large tables); table contents '
            'universally quantified']
 QUANTIFIED = 'all sequence terms and all table contents: universally quantified reals'
 
 
 def lim_grid(tier):
-    if tier == 'quick':
-        return [3, 5, 7]
+    # the whole grid runs in about 30 s on 16 cores, so the quick tier is no longer a sub-grid of the thorough one
     return [3, 5, 7, 9, 11, 21, 61]
 
 
 def enumerated(tier):
-    return 'limexp in %s x n x _nres in 0..3 x cut position; EpsAlg lengths 1..%d' % (lim_grid(tier), 6 if tier == 'quick' else 9)
+    return 'limexp in %s x n x _nres in 0..3 x cut position; EpsAlg lengths 1..%d' % (lim_grid(tier), 9)
 
 
 def groups(tier):
-    out = [('epsalg', ('epsalg', 6 if tier == 'quick' else 9)), ('epsalg-geometric', ('geo',))]
+    out = [('epsalg', ('epsalg', 9)), ('epsalg-geometric', ('geo',))]
     for L in lim_grid(tier):
         ns = list(range(0, L)) if L <= 11 else sorted({0, 1, 2, 3, L - 3, L - 2, L - 1})
         for n in ns:
